@@ -1,4 +1,3 @@
 # reasons for properties without a registered check (read by tools/mkmanifest.py)
 NOT_CLAIMED_REASON = {
-    'C17': 'check not finished yet: engine tlssession (whole-program Qsmtpd with a real TLS client, OpenSSL as oracle) is under construction; the technique applies (state/buffer logic of STARTTLS), see DESIGN.md section 6',
 }
